@@ -12,7 +12,7 @@ from .. import core, pipes, structural as st
 THEOREMS = ['Pk.C19.C19_rowwise_names_are_transform', 'Pk.C19.C19_one_per_column', 'Pk.C19.C19_delay_names',
             'Pk.C19.C19_delay_values', 'Pk.C19.C19_symbols_only', 'Pk.C19.C19_episode_name',
             'Pk.C19.C19_given_names', 'Pk.C19.C19_denotation', 'Pk.C19.C19_rowwise_natural',
-            'Pk.C19.C19_term_semantics']
+            'Pk.C19.C19_term_semantics', 'Pk.C19.C19_accepted_same_positions']
 KINDS = ['poly', 'bilinear', 'const', 'delay', 'sk', 'angle', 'rbf', 'kernel']
 ORACLE_KINDS = ['poly', 'bilinear', 'const', 'delay', 'delay', 'angle']
 
@@ -206,6 +206,43 @@ def frame_order_probe(rng):
     return None, None
 
 
+def accept_cases(rng, n):
+    """(estimator fitted on names A or on an array) x (called with names B or an array): accepted or rejected?
+    observation on a real lifting function, model line for the driver"""
+    import pandas
+    out = []
+    for _ in range(n):
+        k = rng.randint(2, 4)
+        data = np.arange(1.0, 1.0 + 5 * k).reshape(5, k)
+        fit_names = given_names(rng, k) if rng.random() < 0.8 else None
+        r = rng.random()
+        if fit_names is None:
+            call_names = given_names(rng, k) if r < 0.5 else None
+        elif r < 0.25:
+            call_names = list(fit_names)
+        elif r < 0.5:
+            call_names = list(fit_names)
+            rng.shuffle(call_names)
+        elif r < 0.65:
+            call_names = None
+        elif r < 0.8:
+            call_names = [nm + '_x' if j == 0 else nm for j, nm in enumerate(fit_names)]
+        else:
+            call_names = given_names(rng, k)
+        mk = lambda names: data if names is None else pandas.DataFrame(data, columns=names)
+        est = rng.choice([pykoop.PolynomialLiftingFn(order=2), pykoop.DelayLiftingFn(1, 0), pykoop.ConstantLiftingFn()])
+        est.fit(mk(fit_names), n_inputs=0, episode_feature=False)
+        try:
+            est.transform(mk(call_names))
+            accepted = True
+        except ValueError:
+            accepted = False
+        tok = lambda names: 'n' if names is None else f"{len(names)} " + ' '.join(names)
+        out.append((f"accept {tok(fit_names)} {tok(call_names)}", accepted, {'fit_names': fit_names, 'call_names': call_names,
+                                                                             'estimator': type(est).__name__}))
+    return out
+
+
 def given_names(rng, n):
     pool = ['alpha', 'beta', 'gamma', 'pos', 'vel', 'acc', 'tau', 'q', 'w', 'z']
     return rng.sample(pool, n)
@@ -298,6 +335,12 @@ def run(ctx):
             if why:
                 ctx.fail(why, c, {'kinds': sorted(pipes.kinds_in(c['spec']))})
                 return
+    acc = accept_cases(ctx.rng, ctx.n(40, 400))
+    for (line, accepted, tag), rep in zip(acc, drv.ask([a[0] for a in acc])):
+        ctx.count('accept:' + ('accepted' if accepted else 'rejected'))
+        ctx.record_case(tag, True)
+        if rep.split() != ['ok', '1' if accepted else '0']:
+            ctx.mismatch('acceptance of input feature names', tag, accepted, rep)
     for _ in range(ctx.n(12, 100)):
         res = frame_order_probe(ctx.rng)
         ctx.count('frame-order probe')
